@@ -1891,7 +1891,7 @@ class RTCSctpTransport(AsyncIOEventEmitter):
             elif msg_type == DATA_CHANNEL_ACK:
                 # ignore an acknowledgement for a channel we do not know
                 channel = self._data_channels.get(stream_id)
-                if channel is not None:
+                if channel is not None and channel.readyState == "connecting":
                     channel._setReadyState("open")
         elif pp_id == WEBRTC_STRING and stream_id in self._data_channels:
             try:
